@@ -40,7 +40,7 @@ ASSUMPTIONS = ["CPython 3.12 PathFinder/FileFinder + pkgutil.iter_modules define
 MANIFEST = {
     "category": "model_checking",
     "text": "Stateless exploration of directory-listing schedules (every permutation of one directory at a time in quick, two in thorough) over all small file layouts (<= 3 / 5 entries from a 22-entry alphabet; layouts with a stubs distribution also under find_stubs_package=True) on two search paths, on the real finder and loader with os.walk / Path.iterdir intercepted; canonical JSON must be schedule- and request-form-independent and the loaded module set must agree with a PathFinder/pkgutil reference walker. Entries include symbolic links (a second name for a sub-package directory, for a module file); family PTH adds directories through .pth lines (absolute, through a link, relative, with ..) and requests the packages by name and by the path of every portion, against site.addsitedir's order. Family T3 places entries (regular, pkgutil-style and PEP 420 portions, a sub-package) on three search paths and requests the package by name and by the path of each portion.",
-    "note": "Bounded by layout size (<=3 / <=4 entries) and deviation bound (1 / 2 permuted directories); listing order is the only nondeterminism and it is fully owned by the harness.",
+    "note": "Bounded by layout size (<=3 entries quick; <=4 entries over the whole alphabet and <=5 over its first 12 entries thorough) and deviation bound (1 / 2 permuted directories); listing order is the only nondeterminism and it is fully owned by the harness.",
     "technique": "stateless model checking over directory-listing schedules (choice-point DFS with deviation bounding) on the real finder/loader, CPython PathFinder walker as oracle",
 }
 
@@ -66,7 +66,7 @@ def bounds(tier):
     return {"entry_alphabet": NAMES, "passes": [{"max_entries": e, "permuted_directories_per_schedule": d} for e, d in _PLAN[tier]], "search_paths": ["s1", "s2"]}
 
 
-CORE_ENTRIES = tuple(NAMES[:17])
+CORE_ENTRIES = tuple(NAMES[:12])
 
 
 def layouts(maxe):
@@ -74,7 +74,7 @@ def layouts(maxe):
         for combo in itertools.combinations(range(len(NAMES)), k):
             names = [NAMES[i] for i in combo]
             if k >= 5 and any(n not in CORE_ENTRIES for n in names):
-                continue  # (the five-entry pass runs over the 17 core entries it was sized for; the entries added since take part in layouts of up to four entries)
+                continue  # (the five-entry pass runs over the first 12 entries; all entries take part in layouts of up to four entries)
             if "init" in names and "pkgutil-ns" in names:
                 pass  # same file name: only possible on different search paths (handled below)
             for places in itertools.product((1, 2), repeat=k):
